@@ -18,8 +18,19 @@ pub fn grow_unreachable(
     Err(AllocError)
 }
 
-/// Allocator model for code that genuinely grows small vectors: a fresh constant-size block that
-/// holds the old bytes (over-provisioning is within the allocator contract).
+/// Byte sizes of vectors that must never grow (stacks with reserved capacity): growth from a buffer
+/// of one of these sizes is cut like in `grow_unreachable`.
+pub static mut NOGROW_SIZES: [usize; 3] = [0; 3];
+
+pub fn forbid_grow(slot: usize, bytes: usize) {
+    unsafe {
+        NOGROW_SIZES[slot] = bytes;
+    }
+}
+
+/// Allocator model for code that genuinely grows small vectors (the one- to three-element index
+/// vectors of `next_indices*`, the `vec![0]` stacks of `iter()`): a fresh block of exactly the
+/// requested size (one of a few constants) that holds the old bytes; the old block is released.
 pub fn grow_model(
     _this: &Global,
     ptr: NonNull<u8>,
@@ -27,24 +38,35 @@ pub fn grow_model(
     new: Layout,
     _zeroed: bool,
 ) -> Result<NonNull<[u8]>, AllocError> {
-    const MAX: usize = 128;
-    let fits = new.size() <= MAX && old.size() <= MAX && new.align() <= 8;
-    kani::assert(fits, "VERIF-BOUND: Vec growth beyond the allocator model");
-    kani::assume(fits);
-    unsafe {
-        let blk = std::alloc::alloc(Layout::from_size_align_unchecked(MAX, 8));
-        std::ptr::copy_nonoverlapping(ptr.as_ptr(), blk, old.size());
-        std::alloc::dealloc(ptr.as_ptr(), old);
-        Ok(NonNull::slice_from_raw_parts(
-            NonNull::new_unchecked(blk),
-            new.size(),
-        ))
+    let os = old.size();
+    let forbidden = unsafe { os == NOGROW_SIZES[0] || os == NOGROW_SIZES[1] || os == NOGROW_SIZES[2] };
+    kani::assert(!forbidden, "VERIF-BOUND: Vec growth reached although capacity was reserved");
+    kani::assume(!forbidden);
+    let ns = new.size();
+    macro_rules! exact {
+        ($k:literal) => {
+            if ns == $k && os <= $k {
+                unsafe {
+                    let blk = std::alloc::alloc(Layout::from_size_align_unchecked($k, 8));
+                    std::ptr::copy_nonoverlapping(ptr.as_ptr(), blk, os);
+                    std::alloc::dealloc(ptr.as_ptr(), old);
+                    return Ok(NonNull::slice_from_raw_parts(NonNull::new_unchecked(blk), $k));
+                }
+            }
+        };
     }
+    exact!(32);
+    exact!(64);
+    exact!(96);
+    exact!(192);
+    kani::assert(false, "VERIF-BOUND: Vec growth beyond the allocator model");
+    kani::assume(false);
+    Err(AllocError)
 }
 
 /// Sizes (in bytes) the current harness is allowed to allocate; written with constants at the
 /// start of a harness (by `arena::mk_map` and friends) so that symex folds the reads.
-pub static mut ALLOC_SIZES: [usize; 6] = [0; 6];
+pub static mut ALLOC_SIZES: [usize; 10] = [0; 10];
 
 pub fn allow_alloc(slot: usize, bytes: usize) {
     unsafe {
@@ -78,7 +100,29 @@ pub fn alloc_ladder(layout: Layout, _zeroed: bool) -> Result<NonNull<[u8]>, Allo
     slot!(3);
     slot!(4);
     slot!(5);
+    slot!(6);
+    slot!(7);
+    slot!(8);
+    slot!(9);
     kani::assert(false, "VERIF-BOUND: allocation size not announced by the harness");
     kani::assume(false);
     Err(AllocError)
+}
+
+/// `Vec::append_elements` (used by `Vec::extend(Vec<T>)`) copies with a `memcpy` of symbolic
+/// length, which CBMC encodes with unbounded arrays. Same effect, element by element (the index
+/// vectors of the set operations hold at most three entries).
+pub unsafe fn append_elements_model<T, A: std::alloc::Allocator>(v: &mut Vec<T, A>, other: *const [T]) {
+    let count = other.len();
+    v.reserve(count);
+    let mut i = 0;
+    while i < count {
+        unsafe {
+            let x = std::ptr::read((other as *const T).add(i));
+            let len = v.len();
+            std::ptr::write(v.as_mut_ptr().add(len), x);
+            v.set_len(len + 1);
+        }
+        i += 1;
+    }
 }
